@@ -1,7 +1,7 @@
 (* C02 — Watermark discipline: no early firing, no on-time loss, bounded late updates.
    Statements only. Tumbling window; the sliding and session windows share Model/Watermark.v. *)
 From Coq Require Import Lia.
-From SV Require Import Model.Session Model.Tumbling Model.Sliding Proofs.TumblingProofs Proofs.TumblingComplete Proofs.TumblingWatermark Proofs.WindowsWatermark.
+From SV Require Import Model.Session Model.Tumbling Model.Sliding Proofs.TumblingProofs Proofs.TumblingComplete Proofs.TumblingWatermark Proofs.WindowsWatermark Proofs.QuietProofs.
 
 (* every watermark the trigger goroutine ever receives is (timestamp of an ingested, not
    far-future event) - MAXOUTOFORDERNESS, and a window [s,e) fires for the first time only after
@@ -76,3 +76,11 @@ Theorem C02_no_early_delivery_session : forall c h s tr,
      exists id ts key now, In (NAdd id ts key now) h /\ (now + nooo c + day <? ts) = false /\ en + nooo c <= ts).
 Proof. exact session_no_early_delivery. Qed.
 Print Assumptions C02_no_early_delivery_session.
+
+(* the periodic tick re-sends a watermark whose send was skipped because the channel (capacity 100) was full *)
+Theorem C02_tick_resends : forall ooo idle now w m c,
+  maxEv w = Some m -> (length (chan w) < chan_cap)%nat ->
+  cur (tick ooo idle now w) = Some c -> ogt c (sent w) = true ->
+  chan (tick ooo idle now w) = chan w ++ [c] /\ sent (tick ooo idle now w) = Some c.
+Proof. exact tick_resends. Qed.
+Print Assumptions C02_tick_resends.
